@@ -7,11 +7,13 @@ ast shape audit of the wake-up sites.
 A scenario is a JSON-able dict:
   reqs      list of {"path", "chunks": [sizes], "cl": bool (Content-Length given,
             else chunked on 1.1), "close": bool (Connection: close), "v": "1.1"|"1.0",
-            "expect": bool (Expect: 100-continue with a body sent in a later segment)}
-  cuts      how the concatenated request bytes are cut into client sends
+            "expect": bool (Expect: 100-continue with a body sent in a later segment),
+            "wait": bool (streaming application that waits for its consumer after every chunk)}
+  segs      how the request parts (heads, bodies) are grouped into client sends
   adj       Adjustments keywords (send_bytes, outbuf_high_watermark, channel_request_lookahead)
   sndbuf    SO_SNDBUF reported by the socket (the size of one send() attempt)
-  send_plan per-send() plan of the socket: int n (accept <= n), None (all), ["err", errno]
+  send_plan per-send() plan of the socket: int n (accept <= n), None (all), ["err", errno],
+            ["left", k] (accept all but k bytes)
   workers   pool size
   gran      "locks" | "attrs"
   poll      False: wasyncore.poll (select order), True: wasyncore.poll2
@@ -286,7 +288,7 @@ def monitor(world, sc):
     if f["trigger_pulled"] and v == "blocked":
         probs.append("trigger pulled but io blocked")
     hw = world.adj.outbuf_high_watermark
-    if f["total_outbufs_len"]:
+    if f["total_outbufs_len"] and f["in_map"]:      # a closed channel has nobody to deliver to
         probs.append("undelivered output: total_outbufs_len=%d" % f["total_outbufs_len"])
     if f["queue"] and f["in_map"]:
         probs.append("dispatcher queue holds %d unserviced task(s)" % f["queue"])
@@ -307,6 +309,22 @@ def monitor(world, sc):
     return ("quiescent" if v == "blocked" else "finished"), probs
 
 
+def continue_raised(world):
+    """A worker executed send_continue and a send() inside it failed with an errno that the
+    dispatcher re-raises (neither EWOULDBLOCK nor a disconnect): service() was aborted."""
+    ev = world.sched.events
+    for i, (th, k, _) in enumerate(ev):
+        if k == "send_continue" and th != "io":
+            for th2, k2, d2 in ev[i + 1:]:
+                if th2 != th:
+                    continue
+                if k2 == "service_end":
+                    break
+                if k2 == "send_result" and d2 == "e":
+                    return True
+    return False
+
+
 def classify(sc, world, cls, probs):
     """Known-finding class of a failing run (decidable on the scenario and the trace), or None."""
     if not probs:
@@ -314,8 +332,8 @@ def classify(sc, world, cls, probs):
     adj = sc.get("adj", {})
     hw = adj.get("outbuf_high_watermark", 16777216)
     sb = adj.get("send_bytes", 1)
-    if any(k == "send_continue" and th != "io" for th, k, _ in world.sched.events):
-        return "kf_c05_worker_continue"          # F18: a worker executed send_continue
+    if continue_raised(world):
+        return "kf_c05_continue_raises"
     f = world.final
     if cls == "overrun":
         return "kf_c05_sendbytes_gt_watermark" if sb > hw else None
@@ -550,6 +568,8 @@ class _Shape(ast.NodeVisitor):
         self.visit(node.value)
         if node.attr in AUDIT_ATTRS:
             self.emit(("W:" if isinstance(node.ctx, ast.Store) else "R:") + node.attr)
+        elif node.attr in AUDIT_CALLS:
+            self.emit("m:" + node.attr)       # a method taken as a value (flush = self._flush_some_if_lockable)
 
     def visit_Name(self, node):
         if isinstance(node.ctx, ast.Load) and node.id not in ("self", "True", "False", "None"):
@@ -684,9 +704,10 @@ EXPECTED_SHAPE = {
         '{ or( R:total_outbufs_len cmp:Gt:0 , R:will_close , R:close_when_flushed , ) return }'
     ),
     'channel.py:HTTPChannel.handle_write': (
-        '{ if not R:requests { } else { if R:total_outbufs_len cmp:GtE: { } else { } } v:flush call:_flush_ex'
-        'ception() if and( R:close_when_flushed , not R:total_outbufs_len , ) { W:close_when_flushed W:will_c'
-        'lose } if R:will_close { call:handle_close() } }'
+        '{ if not R:requests { m:_flush_some_if_lockable } else { if R:total_outbufs_len cmp:GtE: { m:_flush_'
+        'some_if_lockable } else { } } m:_flush_exception v:flush call:_flush_exception() if and( R:close_whe'
+        'n_flushed , not R:total_outbufs_len , ) { W:close_when_flushed W:will_close } if R:will_close { m:ha'
+        'ndle_close call:handle_close() } }'
     ),
     'channel.py:HTTPChannel._flush_exception': (
         '{ if v:flush { try { v:flush v:do_close return } except:OSError { if { } W:will_close return } excep'
@@ -697,134 +718,145 @@ EXPECTED_SHAPE = {
         'eturn }'
     ),
     'channel.py:HTTPChannel.handle_read': (
-        '{ try { call:recv() } except:OSError { if { } call:handle_close() return } if v:data { v:time v:data'
-        ' call:received() } else { W:connected } }'
+        '{ try { m:recv call:recv() } except:OSError { if { } m:handle_close call:handle_close() return } if '
+        'v:data { v:time m:received v:data call:received() } else { W:connected } }'
     ),
     'channel.py:HTTPChannel.send_continue': (
-        '{ R:request v:len v:outbuf_payload R:outbuf_lock with { R:outbufs v:outbuf_payload call:append() v:n'
-        'um_bytes R:current_outbuf_count W:current_outbuf_count v:num_bytes R:total_outbufs_len W:total_outbu'
-        'fs_len W:sent_continue v:do_close call:_flush_some(do_close=do_close) } }'
+        '{ R:request v:len v:outbuf_payload R:outbuf_lock with { R:outbufs m:append v:outbuf_payload call:app'
+        'end() v:num_bytes R:current_outbuf_count W:current_outbuf_count v:num_bytes R:total_outbufs_len W:to'
+        'tal_outbufs_len W:sent_continue m:_flush_some v:do_close call:_flush_some(do_close=do_close) } }'
     ),
     'channel.py:HTTPChannel.received': (
         '{ if not v:data { return } R:requests_lock with { if or( R:will_close , R:close_when_flushed , ) { r'
-        'eturn } while v:data { if R:request cmp:Is:None { W:request } R:request v:data call:received() if an'
-        'd( R:request , R:request , not R:requests , not R:sent_continue , ) { call:send_continue() } if R:re'
-        'quest { W:sent_continue if not R:request { R:requests R:request call:append() if v:len R:requests cm'
-        'p:Eq:1 { call:add_task() } } W:request } if v:n v:len v:data cmp:GtE: { break } v:data v:n } } retur'
-        'n }'
+        'eturn } while v:data { if R:request cmp:Is:None { W:request } R:request m:received v:data call:recei'
+        'ved() if and( R:request , R:request , not R:requests , not R:sent_continue , ) { m:send_continue cal'
+        'l:send_continue() } if R:request { W:sent_continue if not R:request { R:requests m:append R:request '
+        'call:append() if v:len R:requests cmp:Eq:1 { m:add_task call:add_task() } } W:request } if v:n v:len'
+        ' v:data cmp:GtE: { break } v:data v:n } } return }'
     ),
     'channel.py:HTTPChannel._flush_some_if_lockable': (
-        '{ if R:outbuf_lock call:acquire() { try { v:do_close call:_flush_some(do_close=do_close) if R:total_'
-        'outbufs_len cmp:Lt: { R:outbuf_lock call:notify() } } finally { R:outbuf_lock call:release() } } }'
+        '{ if R:outbuf_lock m:acquire call:acquire() { try { m:_flush_some v:do_close call:_flush_some(do_clo'
+        'se=do_close) if R:total_outbufs_len cmp:Lt: { R:outbuf_lock m:notify call:notify() } } finally { R:o'
+        'utbuf_lock m:release call:release() } } }'
     ),
     'channel.py:HTTPChannel._flush_some': (
-        '{ while { R:outbufs v:outbuf while v:outbuflen cmp:Gt:0 { v:outbuf call:get() v:chunk v:do_close cal'
-        'l:send(do_close=do_close) if v:num_sent { v:outbuf v:num_sent call:skip() v:num_sent v:num_sent v:nu'
-        'm_sent R:total_outbufs_len W:total_outbufs_len } else { break } } else { if v:len R:outbufs cmp:Gt:1'
-        ' { R:outbufs call:pop() try { v:toclose call:close() } except:Exception { } } else { } } if v:dobrea'
-        'k { break } } if v:sent { v:time return } return }'
+        '{ while { R:outbufs v:outbuf while v:outbuflen cmp:Gt:0 { v:outbuf m:get call:get() m:send v:chunk v'
+        ':do_close call:send(do_close=do_close) if v:num_sent { v:outbuf m:skip v:num_sent call:skip() v:num_'
+        'sent v:num_sent v:num_sent R:total_outbufs_len W:total_outbufs_len } else { break } } else { if v:le'
+        'n R:outbufs cmp:Gt:1 { R:outbufs m:pop call:pop() try { v:toclose m:close call:close() } except:Exce'
+        'ption { } } else { } } if v:dobreak { break } } if v:sent { v:time return } return }'
     ),
     'channel.py:HTTPChannel.handle_close': (
-        '{ R:outbuf_lock with { for R:outbufs { try { v:outbuf call:close() } except:Exception { } } W:total_'
-        'outbufs_len W:connected R:outbuf_lock call:notify() } v:wasyncore call:close() }'
+        '{ R:outbuf_lock with { for R:outbufs { try { v:outbuf m:close call:close() } except:Exception { } } '
+        'W:total_outbufs_len W:connected R:outbuf_lock m:notify call:notify() } v:wasyncore m:close call:clos'
+        'e() }'
     ),
     'channel.py:HTTPChannel.write_soon': (
-        '{ if not R:connected { raise:ClientDisconnected } if v:data { R:outbuf_lock with { call:_flush_outbu'
-        'fs_below_high_watermark() if not R:connected { raise:ClientDisconnected } v:len v:data if v:isinstan'
-        'ce v:data v:ReadOnlyFileBasedBuffer { R:outbufs v:data call:append() v:OverflowableBuffer R:outbufs '
-        'v:nextbuf call:append() W:current_outbuf_count } else { if R:current_outbuf_count cmp:GtE: { v:Overf'
-        'lowableBuffer R:outbufs v:nextbuf call:append() W:current_outbuf_count } R:outbufs v:data call:appen'
-        'd() v:num_bytes R:current_outbuf_count W:current_outbuf_count } v:num_bytes R:total_outbufs_len W:to'
-        'tal_outbufs_len if R:total_outbufs_len cmp:GtE: { call:_flush_exception(do_close=False) if or( v:exc'
-        'eption , not v:flushed , R:total_outbufs_len cmp:GtE: , ) { call:pull_trigger() } } } v:num_bytes re'
-        'turn } return }'
+        '{ if not R:connected { raise:ClientDisconnected } if v:data { R:outbuf_lock with { m:_flush_outbufs_'
+        'below_high_watermark call:_flush_outbufs_below_high_watermark() if not R:connected { raise:ClientDis'
+        'connected } v:len v:data if v:isinstance v:data v:ReadOnlyFileBasedBuffer { R:outbufs m:append v:dat'
+        'a call:append() v:OverflowableBuffer R:outbufs m:append v:nextbuf call:append() W:current_outbuf_cou'
+        'nt } else { if R:current_outbuf_count cmp:GtE: { v:OverflowableBuffer R:outbufs m:append v:nextbuf c'
+        'all:append() W:current_outbuf_count } R:outbufs m:append v:data call:append() v:num_bytes R:current_'
+        'outbuf_count W:current_outbuf_count } v:num_bytes R:total_outbufs_len W:total_outbufs_len if R:total'
+        '_outbufs_len cmp:GtE: { m:_flush_exception m:_flush_some call:_flush_exception(do_close=False) if or'
+        '( v:exception , not v:flushed , R:total_outbufs_len cmp:GtE: , ) { m:pull_trigger call:pull_trigger('
+        ') } } } v:num_bytes return } return }'
     ),
     'channel.py:HTTPChannel._flush_outbufs_below_high_watermark': (
-        '{ if R:total_outbufs_len cmp:Gt: { R:outbuf_lock with { call:_flush_exception(do_close=False) if v:e'
-        'xception { call:pull_trigger() R:outbuf_lock call:wait() return } while and( R:connected , R:total_o'
-        'utbufs_len cmp:Gt: , ) { call:pull_trigger() R:outbuf_lock call:wait() } } } }'
+        '{ if R:total_outbufs_len cmp:Gt: { R:outbuf_lock with { m:_flush_exception m:_flush_some call:_flush'
+        '_exception(do_close=False) if v:exception { m:pull_trigger call:pull_trigger() R:outbuf_lock m:wait '
+        'call:wait() return } while and( R:connected , R:total_outbufs_len cmp:Gt: , ) { m:pull_trigger call:'
+        'pull_trigger() R:outbuf_lock m:wait call:wait() } } } }'
     ),
     'channel.py:HTTPChannel.service': (
-        '{ R:requests if v:request { v:request } else { v:request } try { if R:connected { v:task call:servic'
-        'e() } else { v:task } } except:ClientDisconnected { v:task R:request v:task } except:Exception { v:t'
-        'ask R:request if not v:task { if { v:traceback } else { } v:request v:request v:InternalServerError '
-        'v:body v:err_request v:req_version v:err_request try { v:req_headers v:err_request } except:KeyError'
-        ' { } v:err_request try { v:task call:service() } except:ClientDisconnected { v:task } } else { v:tas'
-        'k } } if v:task { R:requests_lock with { W:close_when_flushed for R:requests { v:request call:close('
-        ') } W:requests } } else { if v:len R:requests cmp:Gt:1 { call:_flush_outbufs_below_high_watermark() '
-        '} if R:current_outbuf_count cmp:Gt:0 { W:current_outbuf_count } v:request call:close() R:requests_lo'
-        'ck with { R:requests call:pop() if and( R:connected , R:requests , ) { call:add_task() } else { if a'
-        'nd( R:connected , R:request cmp:IsNot:None , R:request , R:request , not R:sent_continue , ) { call:'
-        'send_continue(do_close=False) } } } } if R:connected { call:pull_trigger() } v:time }'
+        '{ R:requests if v:request { v:request } else { v:request } try { if R:connected { v:task m:service c'
+        'all:service() } else { v:task } } except:ClientDisconnected { v:task R:request v:task } except:Excep'
+        'tion { v:task R:request if not v:task { if { v:traceback } else { } v:request v:request v:InternalSe'
+        'rverError v:body v:err_request v:req_version v:err_request try { v:req_headers v:err_request } excep'
+        't:KeyError { } v:err_request try { v:task m:service call:service() } except:ClientDisconnected { v:t'
+        'ask } } else { v:task } } if v:task { R:requests_lock with { W:close_when_flushed for R:requests { v'
+        ':request m:close call:close() } W:requests } } else { if v:len R:requests cmp:Gt:1 { m:_flush_outbuf'
+        's_below_high_watermark call:_flush_outbufs_below_high_watermark() } if R:current_outbuf_count cmp:Gt'
+        ':0 { W:current_outbuf_count } v:request m:close call:close() R:requests_lock with { R:requests m:pop'
+        ' call:pop() if and( R:connected , R:requests , ) { m:add_task call:add_task() } else { if and( R:con'
+        'nected , R:request cmp:IsNot:None , R:request , R:request , not R:sent_continue , ) { m:send_continu'
+        'e call:send_continue(do_close=False) } } } } if R:connected { m:pull_trigger call:pull_trigger() } v'
+        ':time }'
     ),
     'task.py:ThreadedTaskDispatcher.handler_thread': (
-        '{ while { R:lock with { while and( not R:queue , R:stop_count cmp:Eq:0 , ) { R:queue_cv call:wait() '
-        '} if R:stop_count cmp:Gt:0 { R:stop_count W:stop_count v:thread_no call:notify() break } R:queue cal'
-        'l:popleft() } try { v:task call:service() } except:BaseException { v:task } } }'
+        '{ while { R:lock with { while and( not R:queue , R:stop_count cmp:Eq:0 , ) { R:queue_cv m:wait call:'
+        'wait() } if R:stop_count cmp:Gt:0 { R:stop_count W:stop_count v:thread_no m:notify call:notify() bre'
+        'ak } R:queue m:popleft call:popleft() } try { v:task m:service call:service() } except:BaseException'
+        ' { v:task } } }'
     ),
     'task.py:ThreadedTaskDispatcher.add_task': (
-        '{ R:lock with { R:queue v:task call:append() R:queue_cv call:notify() v:len R:queue v:len R:stop_cou'
-        'nt if v:queue_size v:idle_threads cmp:Gt: { v:queue_size v:idle_threads } } }'
+        '{ R:lock with { R:queue m:append v:task call:append() R:queue_cv m:notify call:notify() v:len R:queu'
+        'e v:len R:stop_count if v:queue_size v:idle_threads cmp:Gt: { v:queue_size v:idle_threads } } }'
     ),
     'wasyncore.py:.read': (
-        '{ try { v:obj call:handle_read_event() } except:_reraised_exceptions { raise: } except:* { v:obj cal'
-        'l:handle_error() } }'
+        '{ try { v:obj m:handle_read_event call:handle_read_event() } except:_reraised_exceptions { raise: } '
+        'except:* { v:obj m:handle_error call:handle_error() } }'
     ),
     'wasyncore.py:.write': (
-        '{ try { v:obj call:handle_write_event() } except:_reraised_exceptions { raise: } except:* { v:obj ca'
-        'll:handle_error() } }'
+        '{ try { v:obj m:handle_write_event call:handle_write_event() } except:_reraised_exceptions { raise: '
+        '} except:* { v:obj m:handle_error call:handle_error() } }'
     ),
     'wasyncore.py:.readwrite': (
-        '{ try { if v:flags v:select { v:obj call:handle_read_event() } if v:flags v:select { v:obj call:hand'
-        'le_write_event() } if v:flags v:select { v:obj call:handle_expt_event() } if v:flags v:select v:sele'
-        'ct v:select { v:obj call:handle_close() } } except:OSError { if v:e v:_DISCONNECTED cmp:NotIn: { v:o'
-        'bj call:handle_error() } else { v:obj call:handle_close() } } except:_reraised_exceptions { raise: }'
-        ' except:* { v:obj call:handle_error() } }'
+        '{ try { if v:flags v:select { v:obj m:handle_read_event call:handle_read_event() } if v:flags v:sele'
+        'ct { v:obj m:handle_write_event call:handle_write_event() } if v:flags v:select { v:obj m:handle_exp'
+        't_event call:handle_expt_event() } if v:flags v:select v:select v:select { v:obj m:handle_close call'
+        ':handle_close() } } except:OSError { if v:e v:_DISCONNECTED cmp:NotIn: { v:obj m:handle_error call:h'
+        'andle_error() } else { v:obj m:handle_close call:handle_close() } } except:_reraised_exceptions { ra'
+        'ise: } except:* { v:obj m:handle_error call:handle_error() } }'
     ),
     'wasyncore.py:.poll': (
-        '{ if v:map cmp:Is:None { v:socket_map } if v:map { for v:list v:map { v:obj call:readable() v:obj ca'
-        'll:writable() if v:is_r { v:r v:fd call:append() } if and( v:is_w , not v:obj , ) { v:w v:fd call:ap'
-        'pend() } if or( v:is_r , v:is_w , ) { v:e v:fd call:append() } } if v:r v:w v:e cmp:Eq,Eq,Eq: { v:ti'
-        'me v:timeout return } try { v:select v:r v:w v:e v:timeout call:select() } except:OSError { if v:err'
-        ' v:EINTR cmp:NotEq: { raise: } else { return } } for v:r { v:map v:fd call:get() if v:obj cmp:Is:Non'
-        'e { continue } v:read v:obj call:read() } for v:w { v:map v:fd call:get() if v:obj cmp:Is:None { con'
-        'tinue } v:write v:obj call:write() } for v:e { v:map v:fd call:get() if v:obj cmp:Is:None { continue'
-        ' } v:_exception v:obj } } }'
+        '{ if v:map cmp:Is:None { v:socket_map } if v:map { for v:list v:map { v:obj m:readable call:readable'
+        '() v:obj m:writable call:writable() if v:is_r { v:r m:append v:fd call:append() } if and( v:is_w , n'
+        'ot v:obj , ) { v:w m:append v:fd call:append() } if or( v:is_r , v:is_w , ) { v:e m:append v:fd call'
+        ':append() } } if v:r v:w v:e cmp:Eq,Eq,Eq: { v:time v:timeout return } try { v:select m:select v:r v'
+        ':w v:e v:timeout call:select() } except:OSError { if v:err v:EINTR cmp:NotEq: { raise: } else { retu'
+        'rn } } for v:r { v:map m:get v:fd call:get() if v:obj cmp:Is:None { continue } v:read v:obj call:rea'
+        'd() } for v:w { v:map m:get v:fd call:get() if v:obj cmp:Is:None { continue } v:write v:obj call:wri'
+        'te() } for v:e { v:map m:get v:fd call:get() if v:obj cmp:Is:None { continue } v:_exception v:obj } '
+        '} }'
     ),
     'wasyncore.py:.poll2': (
-        '{ if v:map cmp:Is:None { v:socket_map } if v:timeout cmp:IsNot:None { v:int v:timeout } v:select cal'
-        'l:poll() if v:map { for v:list v:map { if v:obj call:readable() { v:select v:select } if and( v:obj '
-        'call:writable() , not v:obj , ) { v:select } if v:flags { v:pollster v:fd v:flags call:register() } '
-        '} try { v:pollster v:timeout call:poll() } except:OSError { if v:err v:EINTR cmp:NotEq: { raise: } }'
-        ' for v:r { v:map v:fd call:get() if v:obj cmp:Is:None { continue } v:readwrite v:obj v:flags call:re'
-        'adwrite() } } }'
+        '{ if v:map cmp:Is:None { v:socket_map } if v:timeout cmp:IsNot:None { v:int v:timeout } v:select m:p'
+        'oll call:poll() if v:map { for v:list v:map { if v:obj m:readable call:readable() { v:select v:selec'
+        't } if and( v:obj m:writable call:writable() , not v:obj , ) { v:select } if v:flags { v:pollster m:'
+        'register v:fd v:flags call:register() } } try { v:pollster m:poll v:timeout call:poll() } except:OSE'
+        'rror { if v:err v:EINTR cmp:NotEq: { raise: } } for v:r { v:map m:get v:fd call:get() if v:obj cmp:I'
+        's:None { continue } v:readwrite v:obj v:flags call:readwrite() } } }'
     ),
     'wasyncore.py:dispatcher.send': (
-        '{ try { v:data call:send() v:result return } except:OSError { if v:why v:EWOULDBLOCK cmp:Eq: { retur'
-        'n } else { if v:why v:_DISCONNECTED cmp:In: { if v:do_close { call:handle_close() } return } else { '
-        'raise: } } } }'
+        '{ try { m:send v:data call:send() v:result return } except:OSError { if v:why v:EWOULDBLOCK cmp:Eq: '
+        '{ return } else { if v:why v:_DISCONNECTED cmp:In: { if v:do_close { m:handle_close call:handle_clos'
+        'e() } return } else { raise: } } } }'
     ),
     'wasyncore.py:dispatcher.recv': (
-        '{ try { v:buffer_size call:recv() if not v:data { call:handle_close() return } else { v:data return '
-        '} } except:OSError { if v:why v:_DISCONNECTED cmp:In: { call:handle_close() return } else { raise: }'
-        ' } }'
+        '{ try { m:recv v:buffer_size call:recv() if not v:data { m:handle_close call:handle_close() return }'
+        ' else { v:data return } } except:OSError { if v:why v:_DISCONNECTED cmp:In: { m:handle_close call:ha'
+        'ndle_close() return } else { raise: } } }'
     ),
     'wasyncore.py:dispatcher.close': (
-        '{ W:connected call:del_channel() if cmp:IsNot:None { try { call:close() } except:OSError { if v:why '
-        'v:ENOTCONN v:EBADF cmp:NotIn: { raise: } } } }'
+        '{ W:connected m:del_channel call:del_channel() if cmp:IsNot:None { try { m:close call:close() } exce'
+        'pt:OSError { if v:why v:ENOTCONN v:EBADF cmp:NotIn: { raise: } } } }'
     ),
     'wasyncore.py:dispatcher.handle_read_event': (
-        '{ if { } else { if not R:connected { if { } call:handle_read() } else { call:handle_read() } } }'
+        '{ if { } else { if not R:connected { if { } m:handle_read call:handle_read() } else { m:handle_read '
+        'call:handle_read() } } }'
     ),
     'wasyncore.py:dispatcher.handle_write_event': (
-        '{ if { return } if not R:connected { if { } } call:handle_write() }'
+        '{ if { return } if not R:connected { if { } } m:handle_write call:handle_write() }'
     ),
     'trigger.py:_triggerbase.pull_trigger': (
-        '{ if v:thunk { R:lock with { v:thunk call:append() } } call:_physical_pull() }'
+        '{ if v:thunk { R:lock with { m:append v:thunk call:append() } } m:_physical_pull call:_physical_pull'
+        '() }'
     ),
     'trigger.py:_triggerbase.handle_read': (
-        '{ try { call:recv() } except:OSError { return } R:lock with { for { try { v:thunk } except:* { v:was'
-        'yncore v:t v:v v:tbinfo } } } }'
+        '{ try { m:recv call:recv() } except:OSError { return } R:lock with { for { try { v:thunk } except:* '
+        '{ v:wasyncore v:t v:v v:tbinfo } } } }'
     ),
 }
 
